@@ -106,6 +106,7 @@ struct St
   std::atomic<bool> holdFlush{true};
   std::atomic<int> inFlushCb{0};
   std::atomic<uint32_t> slowCloseUs{0};
+  std::atomic<uint32_t> slowDataUs{0};      // I/O-thread onData holds the loop this long (commands queue up behind it)
   // trigger machinery (I/O-thread side)
   std::shared_ptr<Transport> *holder = nullptr;
   Transport *raw = nullptr;
@@ -165,12 +166,15 @@ static bool g_nestedStart = false; // nested start() runs only in a dedicated gr
 static thread_local char g_crashLine[600]; // per thread: the handler runs on the thread that aborted
 static int g_outFd = 1;
 static std::string g_tdp;
-static void onAbort(int)
+static char g_phaseCrashLine[600]; // set by the main thread for a phase in which ANY thread dying is attributable (e.g. datagrams after a restart)
+static void onAbort(int sig)
 {
-  // std::terminate()/assert inside a nested operation: say which one before dying
-  size_t n = strlen(g_crashLine);
-  if (n) { ssize_t w = ::write(g_outFd, g_crashLine, n); (void)w; }
-  _exit(6);
+  // std::terminate()/assert inside a nested operation, or a fatal signal on any thread during a
+  // named phase: say which before dying
+  const char *line = g_crashLine[0] ? g_crashLine : g_phaseCrashLine;
+  size_t n = strlen(line);
+  if (n) { ssize_t w = ::write(g_outFd, line, n); (void)w; }
+  _exit(sig == SIGSEGV ? 7 : 6);
 }
 static void reenter(const std::shared_ptr<St> &st, ReCb cb)
 {
@@ -311,7 +315,7 @@ static bool runIter(uint64_t seed, uint64_t idx, int onlyTd, int onlyProto)
 
   // ---- peers
   std::unique_ptr<vfnet::Target> echo, bh, trig;
-  std::unique_ptr<vfnet::UdpEcho> uecho;
+  std::unique_ptr<vfnet::UdpEcho> uecho, upeer2; // upeer2: a raw peer that is only ever a connectViaListener target / datagram source
   if (!udp)
   {
     echo.reset(new vfnet::Target(TK::Accept, nullptr, seed + idx));
@@ -322,7 +326,7 @@ static bool runIter(uint64_t seed, uint64_t idx, int onlyTd, int onlyProto)
       if (!bh->blackholeVerified()) { O.obs("blackhole_setup_failed"); nParkConn = 0; nEdgeConn = 0; bh.reset(); }
     }
   }
-  else uecho.reset(new vfnet::UdpEcho());
+  else { uecho.reset(new vfnet::UdpEcho()); upeer2.reset(new vfnet::UdpEcho()); upeer2->mute(true); }
 
   // ---- transport + callbacks
   auto st = std::make_shared<St>();
@@ -330,6 +334,7 @@ static bool runIter(uint64_t seed, uint64_t idx, int onlyTd, int onlyProto)
   auto tok = std::make_shared<FreedToken>();
   tok->flag = implFreed;
   st->slowCloseUs = slowClose;
+  if (udp && rng.chance(0.4)) st->slowDataUs = uint32_t(rng.range(200, 2000));
   st->reentry = reentry;
   st->reSeq = rng.below(NRe); // the rotation of nested operations starts at a seeded position
   TransportConfig cfg;
@@ -366,7 +371,7 @@ static bool runIter(uint64_t seed, uint64_t idx, int onlyTd, int onlyProto)
       return;
     }
     bool isTrig = d.size() >= 4 && memcmp(d.data(), "TRIG", 4) == 0;
-    if (!isTrig) { { std::lock_guard<std::mutex> g(st->m); auto &s = st->data[sid]; if (s.size() < 4096) s.append((const char *)d.data(), d.size()); } reenter(st, RcData); return; }
+    if (!isTrig) { { std::lock_guard<std::mutex> g(st->m); auto &s = st->data[sid]; if (s.size() < 4096) s.append((const char *)d.data(), d.size()); } if (uint32_t us = st->slowDataUs.load()) vf::sleepMs(double(us) / 1000.0); reenter(st, RcData); return; }
     if (!st->triggerArmed.load() || st->triggered.exchange(true)) return;
     int tr = st->trigger.load();
     if (tr == 3) dropHolder(st);
@@ -386,6 +391,7 @@ static bool runIter(uint64_t seed, uint64_t idx, int onlyTd, int onlyProto)
   });
   tok.reset(); // the callbacks stored in Impl are now the only owners: the flag flips when Impl is freed
 
+  std::atomic<uint64_t> curLid{0};
   uint64_t parkedConnSeen = 0, parkedRecvSeen = 0, parkedFlushSeen = 0;
   bool iterOk = true;
   uint64_t sigBits = 0;
@@ -422,10 +428,37 @@ static bool runIter(uint64_t seed, uint64_t idx, int onlyTd, int onlyProto)
       }
     }
     if (!setupOk) { O.inconclusive("session setup failed in iteration " + std::to_string(idx)); iterOk = false; t->stop(); break; }
-    if (udp && rng.chance(0.5))
+    if (udp)
     {
       auto lr = t->addListener("127.0.0.1", 0, TlsMode::None);
-      if (lr.isOk()) { uint16_t lp = t->getListenerAddress(lr.value()).port; if (lp) uecho->sendTo(lp, "hello-listener"); }
+      uint16_t lp = lr.isOk() ? t->getListenerAddress(lr.value()).port : 0;
+      curLid = lr.isOk() ? lr.value() : 0;
+      if (lp)
+      {
+        // every raw peer that was a connectViaListener target or a datagram source in an earlier cycle
+        // talks to the new listener: the restarted transport must deliver it (onAccept/onData), not crash
+        char tokA[48], tokB[48];
+        snprintf(tokA, sizeof tokA, "DGRAM-A-%llu-%d", (unsigned long long)idx, cyc);
+        snprintf(tokB, sizeof tokB, "DGRAM-B-%llu-%d", (unsigned long long)idx, cyc);
+        snprintf(g_phaseCrashLine, sizeof g_phaseCrashLine, "{\"t\":\"stuck\",\"idx\":%llu,\"key\":\"C05:crash:datagram-from-known-peer-to-%s-listener:%s\"}\n",
+                 (unsigned long long)idx, cyc ? "restarted" : "first", tdp.c_str());
+        uecho->sendTo(lp, tokA);
+        upeer2->sendTo(lp, tokB);
+        uint64_t until = vf::nowNs() + 5000000000ull;
+        bool gotA = false, gotB = false;
+        while (vf::nowNs() < until && !(gotA && gotB))
+        {
+          {
+            std::lock_guard<std::mutex> g(st->m);
+            for (auto &kv : st->data) { if (kv.second.find(tokA) != std::string::npos) gotA = true; if (kv.second.find(tokB) != std::string::npos) gotB = true; }
+          }
+          if (!(gotA && gotB)) { vf::sleepMs(0.5); if ((vf::nowNs() / 1000000ull) % 200 == 0) { uecho->sendTo(lp, tokA); upeer2->sendTo(lp, tokB); } }
+        }
+        g_phaseCrashLine[0] = 0;
+        if (gotA && gotB) O.obs(cyc ? "datagrams_from_known_peers_delivered_after_restart" : "datagrams_from_raw_peers_delivered_first_start", 2);
+        else O.viol(std::string("C05:restart:datagram-from-known-peer-not-delivered:") + (cyc ? "after-restart" : "first-start") + ":" + tdp,
+                    "a datagram sent by a raw peer to the listener of the (re)started UDP transport was not delivered within 5 s", desc);
+      }
     }
     if (reentry)
     {
@@ -551,7 +584,7 @@ static bool runIter(uint64_t seed, uint64_t idx, int onlyTd, int onlyProto)
     }
     // storm threads (co-owning)
     std::atomic<uint64_t> stormOps{0}, sendTrue{0}, sendFalse{0}, closeTrue{0}, closeFalse{0}, listenOk{0}, listenErr{0}, connOk{0}, connErr{0};
-    std::atomic<uint64_t> opsAfterTd{0};
+    std::atomic<uint64_t> opsAfterTd{0}, viaOk{0}, viaErr{0};
     std::atomic<int> stopsReturned{0};
     for (int i = 0; i < nStorm; i++)
     {
@@ -561,7 +594,7 @@ static bool runIter(uint64_t seed, uint64_t idx, int onlyTd, int onlyProto)
       w->th = std::thread([&, w, own, s0]() mutable {
         vf::Rng r(s0);
         int after = int(r.range(0, 6));
-        int listens = 0, connects = 0;
+        int listens = 0, connects = 0, vias = 0;
         for (;;)
         {
           // destroying kinds: co-owners must let go once teardown began (one of these releases is the
@@ -582,6 +615,13 @@ static bool runIter(uint64_t seed, uint64_t idx, int onlyTd, int onlyProto)
             else if (k < 5) { w->op = OpClose; w->inCall = true; bool b = own->close(spare[0]); w->inCall = false; (b ? closeTrue : closeFalse)++; }
             else if (k < 7) { w->op = OpAddListener; w->inCall = true; auto lr = own->addListener("127.0.0.1", 0, TlsMode::None); w->inCall = false; (lr.isOk() ? listenOk : listenErr)++; }
             else if (k < 8) { w->op = OpConnect; w->inCall = true; auto cr = own->connect("127.0.0.1", udp ? uecho->port() : echo->port(), TlsMode::None); w->inCall = false; (cr.isOk() ? connOk : connErr)++; }
+            else if (k == 8 && udp && curLid.load() && ++vias <= 16)
+            {
+              // towards the harness's raw peer sockets, also around the teardown instant and while a data callback holds the I/O thread
+              w->op = OpConnect; w->inCall = true;
+              auto vr = own->connectViaListener(curLid.load(), "127.0.0.1", r.chance(0.5) ? uecho->port() : upeer2->port());
+              w->inCall = false; (vr.isOk() ? viaOk : viaErr)++;
+            }
             else { w->op = OpMisc; w->inCall = true; (void)own->getStats(); ReadMode m; (void)own->getReadMode(spare[1], m); (void)own->isRunning(); w->inCall = false; }
           }
           catch (const std::exception &ex) { w->inCall = false; w->threw = true; w->what = ex.what(); }
@@ -865,6 +905,7 @@ static bool runIter(uint64_t seed, uint64_t idx, int onlyTd, int onlyProto)
       else if (op == OpFlush) { O.obs(std::string("flush_returned_") + (w->flushRet ? "true" : "false") + (w->parkedBefore.load() ? "_parked" : "_racer")); sigBits |= w->flushRet ? 256 : 512; }
     }
     if (nBurst) { O.obs("burst_connectSync_calls_entered_between_teardown_begin_and_stop_return", burstCalls.load()); O.obs("burst_connectSync_ok", burstOk.load()); O.obs("burst_connectSync_shutting_down", burstShut.load()); O.obs("burst_connectSync_other_error", burstOther.load()); }
+    if (udp) { O.obs("connectViaListener_ok", viaOk.load()); O.obs("connectViaListener_refused", viaErr.load()); }
     O.obs("storm_ops", stormOps.load());
     O.obs("storm_ops_issued_after_teardown_began", opsAfterTd.load());
     O.obs("send_true", sendTrue.load()); O.obs("send_false", sendFalse.load());
@@ -974,6 +1015,9 @@ int main(int argc, char **argv)
   g_hb = &hb;
   g_outFd = fileno(vf::out().f);
   ::signal(SIGABRT, onAbort);
+#if !defined(__SANITIZE_ADDRESS__)
+  ::signal(SIGSEGV, onAbort); // the asan build lets AddressSanitizer name the faulting frame instead
+#endif
   for (uint64_t i = from; i < from + count; i++)
   {
     g_curIdx = int64_t(i);
